@@ -313,6 +313,10 @@ def part_normalize(chk, drv, runner):
     model_t = common.run_lines(runner, ["c16toks " + hexs(b) for _, b, _ in cases], shards=8)
     sem_in = common.run_lines(runner, ["c16sem " + hexs(b) for _, b, _ in cases], shards=8)
     sem_out = common.run_lines(runner, ["c16sem " + (o.split(" ")[0] if " " in o else "-") for o in impl], shards=8)
+    # hypotheses of normalize_preserves_tokens_partial (c16_clean) evaluated on every case: inside them the theorem predicts the verdict
+    clean = common.run_lines(runner, ["c16clean " + hexs(b) for _, b, _ in cases], shards=8)
+    # idempotence (tested, not proved): normalising qpdf's own output changes nothing
+    again = common.run_lines(drv, ["c16norm " + (o.split(" ")[0] if " " in o else "-") for o in impl], shards=8)
     tie = []
     dist = {}
     nontriv = set()
@@ -328,7 +332,14 @@ def part_normalize(chk, drv, runner):
         if out != b:
             nontriv.add(b)
         bad = None
-        if inq:
+        if clean[i] == "1" and sem_in[i] != "invalid" and (sem_out[i] != sem_in[i] or any_bad):
+            # inside the hypotheses of the proved theorem: the model cannot do this, so the implementation left the model
+            bad = "token sequence changed / warning on an input inside the hypotheses of normalize_preserves_tokens_partial"
+            sig = "C16:norm:theorem-domain"
+        elif again[i].split(" ")[0] != o[0]:
+            bad = "normalisation is not idempotent: normalising the output again changes it"
+            sig = "C16:norm:idempotent"
+        elif inq:
             if sem_in[i] != "invalid":
                 if sem_out[i] != sem_in[i]:
                     bad = "token sequence changed: the output does not read as the input"
@@ -355,6 +366,7 @@ def part_normalize(chk, drv, runner):
     chk.count("normalize", len(cases), nontriv, samples=[{"input": repr(cases[i][1]), "impl": impl[i][:200]} for i in (0, len(cases) // 3, len(cases) - 1)])
     chk.cov["parts"]["normalize"]["distribution"] = dist
     chk.cov["parts"]["normalize"]["valid_inputs"] = sum(1 for s in sem_in if s != "invalid")
+    chk.cov["parts"]["normalize"]["inside_theorem_hypotheses"] = sum(1 for i, s in enumerate(sem_in) if s != "invalid" and clean[i] == "1")
     chk.cov["parts"]["normalize"]["warned"] = sum(1 for o in impl if o.endswith(" 1 1") or o.endswith(" 1 0"))
     return cases
 
